@@ -12,7 +12,7 @@ CLAUSES = {
     "particle-vars-equal": "per-particle variables in those files are equal",
 }
 BOUNDS = {
-    "quick": "one scenario on the real ROMS grid/forcing (rebuilt at the restart time; symbolic release depth) plus, with plug-in grid/forcing: Nsteps 4..7, period 1..2, numrec 1..2, restart from every completed file but the last, continuous release every 2 steps (+ one late discrete row; + two scenarios with a second source row at a symbolic step on or off the frequency grid), one IBM kill (symbolic flag, any step), IBM age variable, scalar forcing, EF/RK2/RK4; positions, velocity, particle values symbolic",
+    "quick": "one scenario on the real ROMS grid/forcing (rebuilt at the restart time; symbolic release depth) plus, with plug-in grid/forcing: Nsteps 4..7, period 1..2, numrec 1..2, restart from every completed file but the last, continuous release every 2 steps (+ one scenario restarting from a file without the num_particles attribute; + one late discrete row; + two scenarios with a second source row at a symbolic step on or off the frequency grid), one IBM kill (symbolic flag, any step), IBM age variable, scalar forcing, EF/RK2/RK4; positions, velocity, particle values symbolic",
     "thorough": "Nsteps up to 8, period 1..3, numrec 1..3",
 }
 ASSUMES = ["values are stored exactly (output precision is outside the claim)", "diffusion off", "plug-in grid/forcing with constant velocity (the ROMS forcing restart is C03's time-shift argument)"]
@@ -28,6 +28,7 @@ def scenarios(tier):
     if not q:
         out.append(dict(name="roms-N6-P1-R2-RK4", fn="run", params=dict(N=6, P=1, R=2, adv="RK4", roms=True), cost=90))
     out.append(dict(name="leaves-grid-N6-P1-R1-EF", fn="run", params=dict(N=6, P=1, R=1, adv="EF", fast=True), cost=30))
+    out.append(dict(name="legacy-N6-P1-R2-EF", fn="run", params=dict(N=6, P=1, R=2, adv="EF", legacy=True), cost=30))
     # release table with a second source at a symbolic step (on or off the release-frequency grid of the first row)
     out.append(dict(name="tworows-N6-P1-R1-EF", fn="run", params=dict(N=6, P=1, R=1, adv="EF", tworows=True), cost=40))
     out.append(dict(name="tworows-N7-P2-R1-EF", fn="run", params=dict(N=7, P=2, R=1, adv="EF", tworows=True), cost=40))
@@ -96,6 +97,10 @@ def run(W, p):
     if nfiles < 2:
         return ("nothing to restart",)
     k = W.idx(W.int("restart_file", 0, nfiles - 2))
+    if p.get("legacy"):
+        # a restart file without the num_particles attribute (written by an older version): the highest identifier on file
+        # counts; with a record every step every particle released so far appears on file, so the fall-back is exact
+        W.nc_del_gatt(tmp / "A" / filesA[k], "num_particles")
     cfgB = _config(W, tmp, tmp / "B", p, x0, u, temp, w0, kill, warm=tmp / "A" / filesA[k], first_file=f"out_{k + 1:03d}.nc")
     run_main(W, cfgB)
     extra = []
